@@ -332,6 +332,14 @@ func (g *Gen) nonConst(t *Ty, depth int) *E {
 
 func (g *Gen) intExpr(t *Ty, depth int) *E {
 	x := g.r.Intn(100)
+	if t.K == "int" && g.r.Intn(14) == 0 {
+		// a chain of three or four small literals (a constant expression: no overflow possible)
+		e := &E{K: "bin", Ty: t, Op: []string{"+", "-"}[g.r.Intn(2)], L: lit(t, int64(1+g.r.Intn(9))), R: lit(t, int64(1+g.r.Intn(9)))}
+		for k := 1 + g.r.Intn(2); k > 0; k-- {
+			e = &E{K: "bin", Ty: t, Op: []string{"+", "-", "+"}[g.r.Intn(3)], L: e, R: lit(t, int64(1+g.r.Intn(9)))}
+		}
+		return e
+	}
 	switch {
 	case x < 55:
 		ops := []string{"+", "-", "*", "+", "-", "&", "|", "^", "/", "%", "<<", ">>"}
